@@ -12,9 +12,10 @@ from ..program import AnalysisError, Inconclusive, ClassInfo, ExtClass
 from ..values import (ERef, Const, Sym, CRef, FRef, Bound, BoundB, Obj, Tup, App,
                       New, Raise, Coll, Part, walk)
 from ..interp import Interp, Hooks
-from ..galg import (GraphHooks, Evaluator, deep_snapshot, all_graphs,
+from ..galg import (ctor_params, GraphHooks, Evaluator, deep_snapshot, all_graphs,
                     all_subsets, NotEvaluable, GraphError, CG, _freeze,
                     g_subgraph)
+from ..fields import labels_field, s0_field
 from ..report import Finding, RuleResult, floor, Attempts
 from .c13 import adjacency_field, root_of, _aliases
 
@@ -151,7 +152,7 @@ class _KHooks(GraphHooks):
 
     def construct(self, I, ci, args, kw, path, node):
         if isinstance(ci, ClassInfo) and ci.is_subclass_of(self.kripke):
-            names = ['S', 'S0', 'R', 'L']
+            names = ctor_params(self.gprog, self.kripke, ['S', 'S0', 'R', 'L'])
             kwd = dict(kw)
             vals = []
             for i, n in enumerate(names):
@@ -161,11 +162,15 @@ class _KHooks(GraphHooks):
         return self.graph_construct(I, ci, args, kw, path, node)
 
 
+LABELS = ['_labels']      # set from fields.labels_field
+S0F = ['S0']              # set from fields.s0_field
+
+
 def kripke_env(K, adj, ks, extra=None):
     env = {K: ks,
            App('attr', K, Const(adj)): {n: ks.g.succ[n] for n in ks.g.nodes},
-           App('attr', K, Const('_labels')): dict(ks.labels),
-           App('attr', K, Const('S0')): ks.S0,
+           App('attr', K, Const(LABELS[0])): dict(ks.labels),
+           App('attr', K, Const(S0F[0])): ks.S0,
            '$adjfield': adj}
     if extra:
         env.update(extra)
@@ -201,6 +206,8 @@ def small_structures():
 # ---------------------------------------------------------------------------
 
 def rule_k1(prog, adj):
+    LABELS[0] = labels_field(prog)
+    S0F[0] = s0_field(prog)
     r = RuleResult('R-K-1', 'Kripke.__init__: total <=> succeeds, every '
                    'state labelled, S0 within the states')
     kc = prog.cls('kripke.Kripke')
@@ -291,10 +298,10 @@ def _eval_kripke_obj(I, o, p, env):
     try:
         g = e.op_graph(d['$base'], d['$edges'], d['$nodes'],
                        d.get('$sedges'))
-        S0 = e.ev(d['S0']) if 'S0' in d else 'missing'
-        labels = e.ev(d['_labels']) if '_labels' in d else 'missing'
+        S0 = e.ev(d[S0F[0]]) if S0F[0] in d else 'missing'
+        labels = e.ev(d[LABELS[0]]) if LABELS[0] in d else 'missing'
         if not isinstance(labels, dict) or S0 == 'missing':
-            return 'object without S0/_labels'
+            return 'object without S0 / labelling field'
         return KS(g, S0, labels)
     except GraphError as ex:
         return 'ill-formed: %s' % ex
@@ -303,6 +310,8 @@ def _eval_kripke_obj(I, o, p, env):
 # ---------------------------------------------------------------------------
 
 def rule_k3(prog, adj):
+    LABELS[0] = labels_field(prog)
+    S0F[0] = s0_field(prog)
     r = RuleResult('R-K-3', 'labels(s) / next(s) of a non-state raise '
                    'RuntimeError; of a state return its label / successor '
                    'set')
@@ -371,6 +380,8 @@ def spec_substructure(ks, V):
 
 
 def rule_k4(prog, adj):
+    LABELS[0] = labels_field(prog)
+    S0F[0] = s0_field(prog)
     r = RuleResult('R-K-4', 'clone / get_substructure: arguments of the new '
                    'structure originate from states, S0, induced '
                    'transitions and labels; no label set is shared')
@@ -471,6 +482,8 @@ def rule_k4(prog, adj):
 
 
 def run(prog, tier, seed):
+    LABELS[0] = labels_field(prog)
+    S0F[0] = s0_field(prog)
     adj = adjacency_field(prog)
     T = Attempts()
     results = T.results(T(rule_k1, prog, adj), T(rule_k3, prog, adj),
